@@ -47,9 +47,12 @@ EvPrepare ==
 EvModes ==
   /\ E.ev = "Modes"
   /\ LET wrong == {t \in Leafs : E.fwd[t] # ExpFwd(t)}      \* the directions the loop starts with are those of the specification
+         \* a forward task with a start to keep that is run backward will sit idle behind its bound (C08: an ASAP task never waits)
+         kept == {t \in Leafs : Keeps(t) /\ ~E.fwd[t]}
      IN /\ conf' = (conf /\ wrong = {}) /\ div' = Note(wrong = {}, <<"Modes", wrong>>)
+        /\ bad' = bad \cup Flag(kept = {}, <<"C08", l, "a forward task with a start of its own is scheduled backward", kept>>)
   /\ ts' = [t \in 1..NT |-> [ts[t] EXCEPT !.fwd = E.fwd[t]]]
-  /\ UNCHANGED <<used, usage, lim, lsec, cur, bad>>
+  /\ UNCHANGED <<used, usage, lim, lsec, cur>>
 
 EvPreMilestone ==
   /\ E.ev = "PreMilestone"
